@@ -41,7 +41,7 @@ ASSUMPTIONS = ['substrate operations are atomic and may yield to other '
                'per recipient of the attempt']
 CELL_BUDGET_S = {'quick': 200, 'thorough': 2000}
 SAMPLE_P = 0.01
-MAX_WITNESSES = 6
+MAX_WITNESSES = 10
 
 RCPTS = ['a@x', 'b@x', 'c@y', 'd@y']
 
